@@ -6,6 +6,8 @@
   answer  : {"results":[{"ok":{"heap":..,"cfg":..}} | {"err":e} | {"invalid":e}]}
 -/
 import ExoModel.Wire
+import ExoModel.RwCheck
+import ExoModel.Wf
 open Lean Exo Exo.Wire
 
 instance : DataAlg Rat where
@@ -94,6 +96,25 @@ def handle (line : String) : Json :=
           let p ← proc (← fld j "proc")
           let ins ← arr (← fld j "inputs")
           pure (Json.mkObj [("results", .arr (ins.map (runOne p)))])
+      | "wf" => do
+          let p ← proc (← fld j "proc")
+          pure (Json.mkObj [("wf", .bool (Exo.Wf.wfP p))])
+      | "rwcheck" => do
+          let before ← proc (← fld j "before")
+          let after ← proc (← fld j "after")
+          let name ← str (← fld j "name")
+          let path ← (← arr (← fld j "path")).toList.mapM (fun st => do
+            let a ← arr st
+            let k ← nat a[1]!
+            match ← str a[0]! with
+            | "body" => pure (Exo.Rw.Step.body k)
+            | "orelse" => pure (Exo.Rw.Step.orelse k)
+            | t => throw s!"bad path step {t}")
+          let k ← nat (← fld j "k")
+          let flag ← Wire.bool (← fld j "flag")
+          match Exo.Rw.check name path k flag before.body after.body with
+          | .ok _ => pure (Json.mkObj [("match", .bool true)])
+          | .error e => pure (Json.mkObj [("match", .bool false), ("why", .str e)])
       | _ => throw s!"unknown op {op}" : P Json) with
     | .ok r => r
     | .error e => Json.mkObj [("bad", .str e)]
